@@ -10,3 +10,4 @@ INVARIANT TypeOK
 INVARIANT Structure
 INVARIANT MonType
 CHECK_DEADLOCK FALSE
+VIEW MCView
